@@ -304,6 +304,7 @@ class ExecCtx:
             self.setvar_existing(n, conv(I, self.lookup(n)))
         self.emit_inv(ls, view, z3.IntVal(0), tag + "/inv-entry", 'loop-entry')
         choice = I.choose(2)
+        kept = []
         # 2. havoc
         for n in sorted(names):
             try:
@@ -312,7 +313,13 @@ class ExecCtx:
                 continue    # first bound inside the loop
             if isinstance(cur, (Closure, Builtin, ModuleVal)):
                 continue
+            saved = {}
+            if isinstance(cur, Ref) and n in ls.keep_attrs:
+                saved = {a: I.state.heap[cur.oid].get(a) for a in ls.keep_attrs[n]}
             self.setvar_existing(n, I.fresh_like(cur, n + "'", None))
+            if saved:
+                I.state.heap[cur.oid].update(saved)
+                kept.append((n, cur, saved))
         for (root, attr) in sorted(attrs):
             try:
                 r = self.lookup(root)
@@ -339,6 +346,9 @@ class ExecCtx:
                 # invariant at the start of this iteration plus the effects of the partial body
                 self.loop_break_k = k
                 return
+            for n, ref, saved in kept:
+                for a, v0 in saved.items():
+                    I.oblige("%s/frame/%s.%s-not-modified-by-the-body" % (tag, n, a), z3.BoolVal(I.state.heap[ref.oid].get(a) is v0), 'loop-frame')
             self.emit_inv(ls, view, k + 1, tag + "/inv-preserved", 'loop-preserve')
             raise LoopIterEnd()
         else:
